@@ -139,6 +139,10 @@ pub struct Case {
     /// Arith: bit 0 = no blank before the operator, bit 1 = no blank after it
     #[serde(default)]
     pub glue: u8,
+    /// set_number_configuration(digits, remove_fract_if_zero, use_fract_rounding): a print setting, it must not change
+    /// which integer a conversion yields
+    #[serde(default)]
+    pub num: Option<(u8, bool, bool)>,
 }
 
 pub fn case_line(c: &Case) -> Line {
@@ -210,7 +214,7 @@ impl Prop for Based {
         "based"
     }
     fn check(&self, w: &mut Worker, c: &Case) -> Verdict {
-        let cfg = Cfg::default();
+        let cfg = Cfg { num: c.num, ..Cfg::default() };
         let line = case_line(c).render(",", ".");
         let (rendered, slot) = match var_def_line(c) {
             None => {
@@ -324,7 +328,7 @@ impl Prop for Based {
                 }
             }
         }
-        acc.finish(rendered).nt(nt).class(kind).class_if(big, "value>=2^31").class_if(matches!(&c.shape, Shape::Convert(s, ..) if s.frac.is_some()), "fractional-source").class_if(matches!(&c.shape, Shape::Convert(_, false, _)), "without-to").class_if(matches!(&c.shape, Shape::Arith(..)) && c.glue % 4 != 0, "operator-glued-to-an-operand")
+        acc.finish(rendered).nt(nt).class(kind).class_if(big, "value>=2^31").class_if(matches!(&c.shape, Shape::Convert(s, ..) if s.frac.is_some()), "fractional-source").class_if(matches!(&c.shape, Shape::Convert(_, false, _)), "without-to").class_if(matches!(&c.shape, Shape::Arith(..)) && c.glue % 4 != 0, "operator-glued-to-an-operand").class_if(c.num.is_some(), "non-default-number-format")
     }
 }
 
@@ -380,13 +384,20 @@ pub fn src_strategy(allow_frac: bool) -> impl Strategy<Value = Src> {
 }
 
 pub fn case_strategy() -> impl Strategy<Value = Case> {
+    (case_strategy_default_format(), prop_oneof![3 => Just(None), 1 => (0u8..=6, any::<bool>(), any::<bool>()).prop_map(Some)]).prop_map(|(mut c, num)| {
+        c.num = num;
+        c
+    })
+}
+
+fn case_strategy_default_format() -> impl Strategy<Value = Case> {
     prop_oneof![
-        2 => src_strategy(false).prop_map(|s| Case { shape: Shape::Literal(s), glue: 0 }),
-        6 => (src_strategy(true), any::<bool>(), 0u8..5).prop_map(|(s, to, t)| Case { shape: Shape::Convert(s, to, t), glue: 0 }),
+        2 => src_strategy(false).prop_map(|s| Case { shape: Shape::Literal(s), glue: 0, num: None }),
+        6 => (src_strategy(true), any::<bool>(), 0u8..5).prop_map(|(s, to, t)| Case { shape: Shape::Convert(s, to, t), glue: 0, num: None }),
         2 => (src_strategy(false), 0u8..3, src_strategy(false), prop_oneof![2 => Just(0u8), 1 => 1u8..4]).prop_map(|(a, op, b, glue)| {
             // keep products exact in f64
             let (a, b) = if op == 2 { (Src { n: a.n % (1 << 26), ..a }, Src { n: b.n % (1 << 26), ..b }) } else { (a, b) };
-            Case { shape: Shape::Arith(a, op, b), glue }
+            Case { shape: Shape::Arith(a, op, b), glue, num: None }
         }),
         // a value computed from a based literal, stored in a variable, then converted: rounded like any other N
         2 => (src_strategy(false), 0u8..4, src_strategy(true), any::<bool>(), 0u8..5).prop_map(|(a, op, b, to, t)| {
@@ -401,7 +412,7 @@ pub fn case_strategy() -> impl Strategy<Value = Case> {
             if op % 4 == 3 && b.n == 0 {
                 b.n = 3;
             }
-            Case { shape: Shape::VarConvert(a, op, b, to, t), glue: 0 }
+            Case { shape: Shape::VarConvert(a, op, b, to, t), glue: 0, num: None }
         }),
     ]
 }
@@ -416,11 +427,11 @@ pub fn table() -> Vec<Case> {
         for base in [10u8, 16, 8, 2] {
             for t in 0..5u8 {
                 for to in [true, false] {
-                    out.push(Case { shape: Shape::Convert(Src { n, base, frac: None, prefix_upper: to, digit_case: t % 3 }, to, t), glue: 0 });
+                    out.push(Case { shape: Shape::Convert(Src { n, base, frac: None, prefix_upper: to, digit_case: t % 3 }, to, t), glue: 0, num: None });
                 }
             }
             if base != 10 {
-                out.push(Case { shape: Shape::Literal(Src { n, base, frac: None, prefix_upper: false, digit_case: 0 }), glue: 0 });
+                out.push(Case { shape: Shape::Literal(Src { n, base, frac: None, prefix_upper: false, digit_case: 0 }), glue: 0, num: None });
             }
         }
     }
